@@ -259,7 +259,7 @@ func (r *Report) writeEvidence(discharged, known, viol int) {
 		"level":       r.Level,
 		"coverage":    cov,
 		"assumptions": append([]string{"static analysis is deterministic; the seed is recorded but unused"}, r.Assume...),
-		"wall_s":      time.Since(r.start).Seconds() + func() float64 {
+		"wall_s": time.Since(r.start).Seconds() + func() float64 {
 			if r.P != nil {
 				return r.P.LoadWall.Seconds()
 			}
